@@ -875,3 +875,84 @@ Proof.
   rewrite exact_cmp_rat_cmp_fin. unfold swap_cmp.
   destruct swap; destruct (cmp_fin m e z); reflexivity.
 Qed.
+
+(* ---- integer literals from their source text ---- *)
+Definition valid_char (radix c : Z) : Prop :=
+  c = 95 \/ (is_dec c = true /\ digit_val c < radix) \/ (radix = 16 /\ is_hexletter c = true).
+Definition radix_prefix (radix : Z) (p : list Z) : Prop :=
+  (radix = 10 /\ p = []) \/
+  (radix = 2 /\ (p = [48; 98] \/ p = [48; 66])) \/
+  (radix = 8 /\ (p = [48; 111] \/ p = [48; 79])) \/
+  (radix = 16 /\ (p = [48; 120] \/ p = [48; 88])).
+Definition strip_ (cs : list Z) : list Z := filter (fun c => negb (c =? 95)) cs.
+
+Lemma valid_char_digit radix c : 2 <= radix <= 16 -> valid_char radix c -> c <> 95 -> 0 <= digit_val c < radix.
+Proof.
+  intros Hr [H|[[H1 H2]|[H1 H2]]] Hc; [congruence| |].
+  - unfold digit_val, is_dec in *. rewrite H1 in *. unfold is_dec in H1. lia.
+  - subst radix. unfold digit_val, is_hexletter, is_dec in *.
+    destruct ((48 <=? c) && (c <=? 57)) eqn:E1; [lia|]. destruct (97 <=? c) eqn:E2; lia.
+Qed.
+
+Lemma valid_char_not_special radix c : valid_char radix c ->
+  (radix =? 10) && ((c =? 46) || (c =? 69) || (c =? 101)) = false /\
+  is_dec c || ((radix =? 16) && is_hexletter c) || (c =? 95) = true.
+Proof.
+  intros [H|[[H1 H2]|[H1 H2]]].
+  - subst c. split; [destruct (radix =? 10); reflexivity|]. rewrite orb_true_r. reflexivity.
+  - split; [unfold is_dec in H1; destruct (radix =? 10); cbn; lia|]. rewrite H1. reflexivity.
+  - subst radix. split; [reflexivity|]. rewrite H2. cbn. rewrite orb_true_r. reflexivity.
+Qed.
+
+Lemma scan_number_valid radix body : Forall (valid_char radix) body -> scan_number radix body = Some (body, []).
+Proof.
+  induction 1 as [|c r Hc _ IH]; [reflexivity|]. cbn [scan_number].
+  destruct (valid_char_not_special radix c Hc) as [H1 H2]. rewrite H1, H2, IH. reflexivity.
+Qed.
+
+Lemma strip_no_underscore cs : existsb (Z.eqb 95) cs = false -> strip_ cs = cs.
+Proof.
+  induction cs as [|c r IH]; [reflexivity|]. cbn [existsb strip_ filter]. intros H.
+  apply orb_false_elim in H as [H1 H2]. replace (c =? 95) with false by lia. cbn [negb].
+  fold (strip_ r). rewrite IH by exact H2. reflexivity.
+Qed.
+
+Lemma split_radix_dec body : Forall (valid_char 10) body -> split_radix body = (10, body).
+Proof.
+  intros Hb. destruct body as [|c0 [|c1 r]]; try reflexivity.
+  inversion Hb as [|? ? _ Hr]; subst. inversion Hr as [|? ? Hc1 _]; subst.
+  assert (Hn : c1 = 95 \/ (48 <= c1 <= 57)).
+  { destruct Hc1 as [H|[[H1 _]|[H1 _]]]; [left; exact H|right; unfold is_dec in H1; lia|discriminate]. }
+  unfold split_radix.
+  replace ((c1 =? 98) || (c1 =? 66)) with false by lia.
+  replace ((c1 =? 111) || (c1 =? 79)) with false by lia.
+  replace ((c1 =? 120) || (c1 =? 88)) with false by lia.
+  destruct (negb (c0 =? 48)); reflexivity.
+Qed.
+
+Lemma split_radix_prefix radix p body : radix_prefix radix p -> Forall (valid_char radix) body ->
+  split_radix (p ++ body) = (radix, body).
+Proof.
+  intros Hp Hb. destruct Hp as [[-> ->]|[[-> [-> | ->]]|[[-> [-> | ->]]|[-> [-> | ->]]]]]; try reflexivity.
+  apply split_radix_dec. exact Hb.
+Qed.
+
+Lemma lex_number_text_value radix p body :
+  radix_prefix radix p -> Forall (valid_char radix) body -> last body 0 <> 95 -> strip_ body <> [] ->
+  lex_number_text (p ++ body) = Some (lit (digits_value radix 0 (map digit_val (strip_ body)))).
+Proof.
+  intros Hp Hb Hl Hne.
+  assert (Hr : 2 <= radix <= 16) by (destruct Hp as [[-> _]|[[-> _]|[[-> _]|[-> _]]]]; lia).
+  unfold lex_number_text. rewrite (split_radix_prefix radix p body Hp Hb), (scan_number_valid radix body Hb).
+  assert (Hd : lex_digits radix (strip_ body) = lit (digits_value radix 0 (map digit_val (strip_ body)))).
+  { assert (Hv : Forall (fun c => 0 <= digit_val c < radix) (strip_ body)).
+    { unfold strip_. apply Forall_forall. intros c Hc. apply filter_In in Hc as [Hin Hc].
+      rewrite Forall_forall in Hb. apply valid_char_digit; [exact Hr|apply Hb; exact Hin|lia]. }
+    unfold lex_digits. destruct (strip_ body) as [|c0 r0] eqn:E; [congruence|].
+    replace (forallb (fun c => digit_val c <? radix) (c0 :: r0)) with true.
+    - apply lex_int_spec; [lia|]. rewrite Forall_forall in *. intros d Hin. apply in_map_iff in Hin as (c & <- & Hc). apply Hv. exact Hc.
+    - symmetry. apply forallb_forall. intros c Hc. rewrite Forall_forall in Hv. specialize (Hv c Hc). lia. }
+  destruct (existsb (Z.eqb 95) body) eqn:E.
+  - destruct (last body 0 =? 95) eqn:E2; [lia|]. fold (strip_ body). rewrite Hd. reflexivity.
+  - rewrite <- (strip_no_underscore body E) at 1. rewrite Hd. reflexivity.
+Qed.
